@@ -43,6 +43,24 @@ type Case struct {
 	Fault     *Fault `json:"fault,omitempty"`     // additionally pack the tree into a destination that fails (fault_test.go)
 	Unpriv    string `json:"unpriv,omitempty"`    // disk: pack in a child running as uid/gid 65534; what it cannot read (see unprivModes)
 	VictimPos int    `json:"victim_pos,omitempty"`
+	NoTime    bool   `json:"no_time,omitempty"` // disk: LocalFSOptions.NoTime / `desync tar --no-time`: every mtime in the archive is 0
+	OneFS     bool   `json:"one_fs,omitempty"`  // disk: LocalFSOptions.OneFileSystem / `desync tar -x` (the tree is on one filesystem: no effect)
+}
+
+// xattr names from every namespace, many of them made of the characters of "SCHILY.xattr."
+// (the PAX record prefix the tar source has to cut off)
+var xattrNames = []string{"trusted.x", "trusted.overlay.opaque", "trusted.LYC", "trusted.tar", "trusted.a", "system.tar", "user.xattr.x", "a", "r.a.t",
+	"security.x", "security.y.z", "xattr.x", "SCHILY.xattr.user.a", "user.SCHILY", "t", "...", "user..", "trusted..x"}
+
+func (c Case) localOpts() desync.LocalFSOptions {
+	return desync.LocalFSOptions{NoTime: c.NoTime, OneFileSystem: c.OneFS}
+}
+
+func zeroTimes(n *catar.Node) {
+	n.MTimeNs = 0
+	for _, k := range n.Children {
+		zeroTimes(k)
+	}
 }
 
 // spellings of the root path handed to NewLocalFS / the CLI. The tree lives at <scratch>/p/root,
@@ -137,6 +155,9 @@ func genAttrs(t *rapid.T, s *Spec, src string) {
 		nx := rapid.IntRange(1, 3).Draw(t, "nx")
 		for i := 0; i < nx; i++ {
 			k := ns + rapid.SampledFrom([]string{"a", "b", "k1", "mime_type", "z.z", "A"}).Draw(t, "xk")
+			if rapid.IntRange(0, 2).Draw(t, "xanyns") == 0 { // on disk the kernel may refuse some: those are skipped
+				k = rapid.SampledFrom(xattrNames).Draw(t, "xname")
+			}
 			l := rapid.SampledFrom([]int{0, 1, 1, 7, 40, 300}).Draw(t, "xl")
 			v := gen.RandBytes(l, rapid.Uint64().Draw(t, "xseed"))
 			if rapid.Bool().Draw(t, "xtext") {
@@ -223,6 +244,8 @@ func genCase(t *rapid.T) Case {
 		c.RootPath = rapid.SampledFrom([]string{".", "/", "r", "/a/b", "a/b", "/tmp/x y"}).Draw(t, "rootpath")
 	case "disk":
 		c.Spelling = rapid.SampledFrom(append([]string{"canonical", "canonical", "slash"}, spellings...)).Draw(t, "spelling")
+		c.NoTime = rapid.IntRange(0, 3).Draw(t, "notime") == 0
+		c.OneFS = rapid.IntRange(0, 3).Draw(t, "onefs") == 0
 		if rapid.IntRange(0, hx.Pick(15, 5)).Draw(t, "unpriv?") == 0 {
 			c.Unpriv = rapid.SampledFrom(append([]string{"file000-nonempty", "file000-nonempty"}, unprivModes...)).Draw(t, "unpriv")
 			c.VictimPos = rapid.IntRange(0, 2).Draw(t, "victimpos")
@@ -435,6 +458,16 @@ func run(c Case) (o hx.Outcome) {
 			}
 			break
 		}
+		if c.NoTime {
+			o.Class("option:no-time")
+			zeroTimes(want) // "set file timestamps to zero in the archive"; everything else as without the option
+		}
+		if c.OneFS {
+			o.Class("option:one-file-system")
+		}
+		if !c.NoTime && !c.OneFS {
+			o.Class("option:none")
+		}
 		arg, cwd, used := spell(c.Spelling, parent, tree.kind == "dir")
 		o.Class("root-spelling:" + used)
 		if cwd != "" {
@@ -444,13 +477,13 @@ func run(c Case) (o hx.Outcome) {
 			}
 			defer os.Chdir(old)
 		}
-		mk = func() desync.FilesystemReader { return desync.NewLocalFS(arg, desync.LocalFSOptions{}) }
-		err = desync.Tar(context.Background(), &out, desync.NewLocalFS(arg, desync.LocalFSOptions{}))
+		mk = func() desync.FilesystemReader { return desync.NewLocalFS(arg, c.localOpts()) }
+		err = desync.Tar(context.Background(), &out, desync.NewLocalFS(arg, c.localOpts()))
 		if used != "canonical" {
 			// every spelling names the same directory: the archive must not depend on it
 			o.Class("root-spelling:non-canonical")
 			var canon bytes.Buffer
-			if cerr := desync.Tar(context.Background(), &canon, desync.NewLocalFS(root, desync.LocalFSOptions{})); cerr == nil && err == nil && !bytes.Equal(canon.Bytes(), out.Bytes()) {
+			if cerr := desync.Tar(context.Background(), &canon, desync.NewLocalFS(root, c.localOpts())); cerr == nil && err == nil && !bytes.Equal(canon.Bytes(), out.Bytes()) {
 				o.Fail("C13:root-spelling:archive-differs", "the same tree packed through NewLocalFS(%q) gives %d bytes, through the canonical spelling %q %d bytes", arg, out.Len(), root, canon.Len())
 			}
 		}
@@ -502,6 +535,21 @@ func run(c Case) (o hx.Outcome) {
 	}
 	if sh.xattrs > 0 {
 		o.Class("xattrs")
+	}
+	if sh.xTrusted {
+		o.Class("xattr:trusted-namespace")
+		if src == "tar" {
+			o.Class("xattr:trusted-namespace:tar-source")
+		}
+	}
+	if sh.xCharset {
+		o.Class("xattr:name-from-prefix-charset")
+		if src == "tar" {
+			o.Class("xattr:name-from-prefix-charset:tar-source")
+		}
+	}
+	if sh.xOtherNS {
+		o.Class("xattr:other-namespace")
 	}
 	for _, k := range []string{"lnk", "chr", "blk", "special"} {
 		if sh.kinds[k] > 0 {
@@ -620,6 +668,8 @@ var spec = &hx.Spec[Case]{
 		"mtime >= 0; uid/gid <= 2^32-2; device major < 2^12, minor < 2^20; unique names per directory",
 		"disk source: the root path is handed over in nine spellings of the same directory (canonical, trailing slash(es), /., ./x, relative, //, /./, /x/../); the archive must be the same for all",
 		"failing destination: a writer that accepts the first k bytes of the archive (k over the whole length, favouring the tail; short or refused failing write) or /dev/full; Tar == nil must imply that every archive byte was accepted, a failed Write must make Tar fail",
+		"xattr names from the user, trusted, security and system namespaces and without namespace (synthetic and tar source: all; disk: those the kernel accepts), many made of the characters of 'SCHILY.xattr.'",
+		"disk source options: NoTime (every mtime in the archive must be exactly 0, the rest unchanged) and OneFileSystem (tree on one filesystem: archive unchanged), in the library and, if built, the CLI (--no-time, -x)",
 		"unprivileged reader: the tree is packed by a re-exec'ed child of the test binary running as uid/gid 65534 (library Tar through LocalFS only, not the CLI); Tar may refuse a tree it cannot read completely, but success must come with a valid archive that describes exactly the tree as root lists it",
 		"CLI level (desync tar, desync tar -i over output paths with a history, and with output '-' captured from stdout apart from stderr) only when the driver provides the freshly built CLI in $VERIF_DESYNC_BIN; a CLI run that exceeds 120 s is not judged",
 	},
@@ -629,6 +679,8 @@ var spec = &hx.Spec[Case]{
 		"root-spelling:dslash", "root-spelling:dotmid", "root-spelling:updown", "root-spelling:slashes",
 		"tar:writer-fails", "tar:writer-fails:in-last-64KiB", "tar:writer-fails:before-last-64KiB", "tar:writer-fails:delivered", "tar:writer-fails:k=0",
 		"tar:writer-fails:in-last-100-bytes", "tar:writer-fails:in-root-goodbye", "tar:writer-fails:devfull",
+		"option:no-time", "option:one-file-system", "option:none", "xattr:trusted-namespace", "xattr:trusted-namespace:tar-source",
+		"xattr:name-from-prefix-charset", "xattr:name-from-prefix-charset:tar-source", "xattr:other-namespace",
 		"unprivileged", "unprivileged:all-readable", "unprivileged:unreadable-file:nonempty", "unprivileged:unreadable-file:empty", "unprivileged:unreadable-dir",
 		"unprivileged:dir-without-x", "unprivileged:foreign-file-0600", "unprivileged:tar-error", "unprivileged:tar-ok"},
 	Gen: genCase,
